@@ -109,6 +109,52 @@ def rule_quote(ctx, prop):
             if not ok:
                 rep.violation(f"{ft.key} quote-not-from-get_quote_to_use",
                               "format_token does not take the output quote type from get_quote_to_use", ft.loc(), cfg)
+            # path form: every path of the StringLiteral arm on which the input is not known to be a bracket string takes
+            # its output quote from get_quote_to_use (no other condition may route a quoted string around the choice)
+            OTHERS = ("Number", "Shebang", "SingleLineComment", "MultiLineComment", "Whitespace", "InterpolatedString",
+                      "Eof", "Identifier", "Symbol")
+            try:
+                res = Enumerator(ft, max_paths=30000,
+                                 prune=lambda st, bi: any(isinstance(v, str) and v in OTHERS and k.startswith("call:") and "." not in k
+                                                          for k, v in st.disc.items()) or
+                                 any(isinstance(v, tuple) and v[0] == "not" and "StringLiteral" in v[1] for k, v in st.disc.items())).run()
+            except TooManyPaths:
+                res = []
+                rep.anchor(False, "format_token[StringLiteral]: too many paths", cfg)
+            nq = 0
+            badp = {}
+            for st in res:
+                if not any(v == "StringLiteral" for v in st.disc.values()):
+                    continue
+                br = [v for k, v in st.hist if k.endswith("quote_type") and isinstance(v, str)]
+                if br and br[-1] == "Brackets":
+                    continue
+                nq += 1
+                trail = set(st.trail)
+                chosen = [b_ for b_, c_, t_ in st.calls if c_.endswith("get_quote_to_use")]
+                aggs = [(b_, s_) for b_, si_, s_ in ft.stmts() if b_ in trail and s_["k"] == "assign" and s_["rv"]["k"] == "agg"
+                        and s_["rv"].get("variant") == "StringLiteral" and s_["rv"].get("adt", "").endswith("TokenType")]
+                why = None
+                if not chosen:
+                    why = "without-get_quote_to_use"
+                elif not aggs:
+                    why = "token-not-rebuilt"
+                else:
+                    adt = prog.adt("full_moon::tokenizer::TokenType", "stylua_lib")
+                    names = [x["name"] for v in adt["variants"] if v["name"] == "StringLiteral" for x in v["fields"]]
+                    o = aggs[-1][1]["rv"]["ops"][names.index("quote_type")]
+                    if not any(r[0] == "call" and r[1].endswith("get_quote_to_use") and r[2] in trail for r in provenance(ft, o, through=None)):
+                        why = "quote-field-not-the-chosen-quote"
+                if why:
+                    gate = sorted({callee(ft.blocks[int(k.split(":")[1])]["term"]).split("::")[-1] for k, v in st.hist
+                                   if k.startswith("dec:")})
+                    badp.setdefault(why, gate)
+            rep.inst(f"{ft.key} every quoted-string path chooses its quote through get_quote_to_use", {"paths": nq}, cfg, ok=not badp)
+            for why, gate in sorted(badp.items()):
+                rep.violation(f"{ft.key} quoted-string-path-{why}",
+                              f"format_token has a path for a quoted (non-bracket) string literal that ends {why} (decided by "
+                              f"{gate}): such strings keep their input quote under every quote_style", ft.loc(), cfg)
+            rep.floor("quoted-string paths of format_token", nq, 1, cfg)
     return rep
 
 
